@@ -11,6 +11,14 @@ echo "== demo WITHOUT the change:"; (cd "$S" && PYTHONPATH="$S" /venv/bin/python
 git -C "$S" apply "$PATCH" || { echo "PATCH DOES NOT APPLY"; git -C /repo worktree remove --force "$S"; exit 2; }
 echo "== tests WITH the change:"; (cd "$S" && PYTHONPATH="$S" /venv/bin/python -m pytest -q -p no:cacheprovider 2>&1 | tail -1)
 echo "== demo WITH the change:"; (cd "$S" && PYTHONPATH="$S" /venv/bin/python /tmp/demo_$ID.py >/tmp/demo_out_$ID.txt 2>&1; echo "exit=$?"; tail -2 /tmp/demo_out_$ID.txt | cut -c1-200)
+if [ -n "$SEED_IN_WORKTREE" ]; then
+  # /repo is in use by another run: check the patched scratch worktree instead of patching /repo
+  for P in "$@"; do
+    (cd /verif && VERIF_REPO="$S" ./check "$P" --tier quick > /tmp/seed_${ID}_$P.log 2>&1; echo "== check $P exit=$? violations=$(grep -c '^VIOLATION' /tmp/seed_${ID}_$P.log)"; grep -A1 '^VIOLATION' /tmp/seed_${ID}_$P.log | grep -v '^VIOLATION\|^--' | head -2 | cut -c1-300; grep MACHINERY /tmp/seed_${ID}_$P.log | cut -c1-300)
+  done
+  git -C /repo worktree remove --force "$S"
+  exit 0
+fi
 git -C /repo worktree remove --force "$S"
 git -C /repo apply "$PATCH" || { echo "PATCH DOES NOT APPLY TO /repo"; exit 2; }
 for P in "$@"; do
